@@ -413,3 +413,8 @@ patch("s-c07m-pool-size-counts-blocked", "seeded/C07-M/patch.diff", "C07.R10")
 patch("s-c14m-direct-pool-store", "seeded/C14-M/patch.diff", "C14.R12")
 patch("s-c16m-ktable-nonnull-only", "seeded/C16-M/patch.diff", "C16.R10")
 patch("s-c13m-attr-init-drops-callback", "seeded/C13-M/patch.diff", "C13.R13")
+
+# round-7 (second half, ids -N)
+patch("s-c05n-timespec-div-for-mod", "seeded/C05-N/patch.diff", "C05.R8")
+patch("s-c09n-future-test-off-by-one", "seeded/C09-N/patch.diff", "C09.R7")
+patch("s-c06n-remove-leaves-flag", "seeded/C06-N/patch.diff", "C06.R10")
